@@ -1433,6 +1433,8 @@ fn search_parse_diag(obs: &[&str]) {
         "interface org.example.a\nmethod Foo(a: int, b: ?[]string) -> (c: (x: bool, y: [string]float))\ntype T (e: (one, two))\nerror E (m: string)\n",
         "# doc\r\ninterface org.example.b\r\n\r\nmethod Ping(ping: string) -> (pong: string)\r\n# \u{e9}\u{4e16}\r\nerror Bad ()\r\n",
         "interface org.example.c\n\n\n  method   M ( )->( )\n\ntype X (a: object, b: [string](), c: ?X)",
+        // multi-byte whitespace in front of the tokens of a line: a column counted in bytes runs past the line
+        "interface org.example.d\nmethod\u{3000}Foo(a:\u{a0}int) -> (b: string)\n\u{3000}type\u{3000}T (x: bool)\n",
     ];
     let mut texts: Vec<String> = Vec::new();
     for b in bases {
